@@ -172,6 +172,13 @@ func NewDeviceCode(nBytes int) (string, error) {
 }
 
 func NewUserCode(charSet []rune, charAmount, dashInterval int) (string, error) {
+	if len(charSet) == 0 {
+		return "", errors.New("user code: character set must not be empty")
+	}
+	if charAmount < 1 {
+		return "", errors.New("user code: character amount must be at least 1")
+	}
+
 	var buf strings.Builder
 	if dashInterval > 0 {
 		buf.Grow(charAmount + charAmount/dashInterval - 1)
